@@ -179,12 +179,13 @@ def model_world(world, extmod=None):
 # generation
 # ---------------------------------------------------------------------------------------------
 
-VAR_VALUES = [jv("int", "0"), jv("int", "5"), jv("str", "a"), jv("str", ""), jv("int", "-3"),
+VAR_VALUES = [jv("int", "0"), jv("int", "5"), jv("str", "a"), jv("str", ""), jv("int", "-3"), jv("str", "l1\r\nl2\rl3\n"),
               jv("list", [jv("int", "1"), jv("str", "x")]), jv("dict", [[jv("str", "k"), jv("int", "1")]]),
               jv("list", [jv("int", "2")]), jv("bool", True), jv("none"), jv("tuple", [jv("int", "7"), jv("str", "y")]),
               jv("tuple", [jv("list", [jv("int", "3")]), jv("str", "z")])]
 # NB: both pools are injective for dds_hash (no two members in one C05 collision class: no True next to 1,
 # no [] next to ''), so that a C05 identification never shows up as a C01 staleness.
+BUILTIN_LIKE_NAMES = ["max", "format", "filter", "type", "id", "min", "input", "hash", "vars", "dir"]
 SHADOW_KINDS = ["listcomp", "genexp", "dictcomp", "setcomp"]
 CONSTS = [jv("int", "1"), jv("int", "2"), jv("str", "s"), jv("none"), jv("bool", False), jv("str", "")]
 
@@ -237,6 +238,11 @@ def _gen_world(rng, nfun, allow):
     n = nfun or rng.randint(2, 8)
     nv = rng.randint(1, 3)
     vars_ = [["V%d" % i, rng.choice(VAR_VALUES)] for i in range(nv)]
+    if "plainnames" not in allow:
+        # some module variables are named like Python built-ins (they hide them in the module, and are tracked like any other)
+        for pair, nm in zip(vars_, rng.sample(BUILTIN_LIKE_NAMES, len(vars_))):
+            if rng.random() < 0.3:
+                pair[0] = nm
     pathc = [0]
 
     def newpath():
